@@ -103,6 +103,11 @@ func runC07(r *Report, tier string) {
 	}
 	c05BstrNil(r, func(s string) bool { return tf[s] })
 
+	// a conforming message keeps verifying whatever is decoded after it: every
+	// decode destination is a fresh local (no pooled or shared scratch value
+	// whose captured raw bytes the next decode overwrites)
+	r.rule("R19.2", "(shared with C19) every destination handed to a mode Unmarshal on a decode path is a fresh zero-valued local.")
+	checkDecodeDestinations(r, "R19.2")
 	// the structure rules the property rests on
 	runC02(r, tier)
 	runC10(r, tier)
